@@ -412,6 +412,140 @@ func (r *c09Run) checkShapes(i int, cls string) {
 		}
 		r.shape["q:one-to-one-order"] = true
 	}
+	r.checkShapesOwnFields(i, cls, booksOf)
+}
+
+// checkShapesOwnFields: a condition through the relation together with a condition on the selected
+// collection's own field, and a limit on the listed children (own stream of choices).
+func (r *c09Run) checkShapesOwnFields(i int, cls string, booksOf map[string][]string) {
+	rx := newRng(r.p.Seed, uint64(9000+i))
+	ops := []string{"_gt", "_ge", "_lt", "_le", "_eq"}
+	// --- children selected by a parent field and an own field
+	{
+		op, op2 := ops[rx.IntN(len(ops))], ops[rx.IntN(len(ops))]
+		age := 20 + rx.IntN(9)
+		x := float64(rx.IntN(9)) + 0.5
+		q := fmt.Sprintf(`query { Book(filter: {author: {age: {%s: %d}}, rating: {%s: %v}}) { _docID } }`, op, age, op2, x)
+		data, ok := r.q(i, q)
+		if !ok {
+			return
+		}
+		var want []string
+		for b, bk := range r.books {
+			if a, live := r.users[bk.author]; live && cmpOp(op, float64(a), float64(age)) && cmpOp(op2, bk.rating, x) {
+				want = append(want, b)
+			}
+		}
+		sort.Strings(want)
+		if got := idsOf(data["Book"]); canon(got) != canon(nonNil(want)) {
+			r.res.violate("C09", "relation-filter-differs", "child-by-parent-field-and-own-field:"+op+"/"+cls, i, "%s = %v, by the model %v", q, got, want)
+			return
+		}
+		r.shape["q:child-by-parent-field-and-own-field:"+op] = true
+	}
+	// --- parents selected by a child field and an own field
+	{
+		op, op2 := ops[rx.IntN(len(ops))], ops[rx.IntN(len(ops))]
+		age := 20 + rx.IntN(9)
+		x := float64(rx.IntN(9)) + 0.5
+		order := ""
+		if rx.IntN(2) == 1 {
+			order = ", order: {age: ASC}"
+		}
+		q := fmt.Sprintf(`query { User(filter: {books: {rating: {%s: %v}}, age: {%s: %d}}%s) { _docID } }`, op, x, op2, age, order)
+		data, ok := r.q(i, q)
+		if !ok {
+			return
+		}
+		var want []string
+		for u, bs := range booksOf {
+			if !cmpOp(op2, float64(r.users[u]), float64(age)) {
+				continue
+			}
+			for _, b := range bs {
+				if cmpOp(op, r.books[b].rating, x) {
+					want = append(want, u)
+					break
+				}
+			}
+		}
+		sort.Strings(want)
+		got := idsOf(data["User"])
+		for k := 1; k < len(got); k++ {
+			if got[k] == got[k-1] {
+				r.res.violate("C09", "relation-filter-differs", "parent-by-child-field-and-own-field:duplicates/"+cls, i, "%s lists a user more than once: %v", q, got)
+				return
+			}
+		}
+		if canon(got) != canon(nonNil(want)) {
+			r.res.violate("C09", "relation-filter-differs", "parent-by-child-field-and-own-field:"+op+"/"+cls, i, "%s = %v, by the model %v", q, got, want)
+			return
+		}
+		r.shape["q:parent-by-child-field-and-own-field:"+op] = true
+	}
+	// --- parents selected through two of their relations at once
+	{
+		op, op2 := ops[rx.IntN(len(ops))], ops[rx.IntN(len(ops))]
+		x := float64(rx.IntN(9)) + 0.5
+		sc := rx.IntN(10)
+		q := fmt.Sprintf(`query { User(filter: {books: {rating: {%s: %v}}, articles: {score: {%s: %d}}}) { _docID } }`, op, x, op2, sc)
+		data, ok := r.q(i, q)
+		if !ok {
+			return
+		}
+		byArticle := map[string]bool{}
+		for _, a := range r.articles {
+			if _, live := r.users[a.writer]; live && cmpOp(op2, float64(a.score), float64(sc)) {
+				byArticle[a.writer] = true
+			}
+		}
+		var want []string
+		for u, bs := range booksOf {
+			if !byArticle[u] {
+				continue
+			}
+			for _, b := range bs {
+				if cmpOp(op, r.books[b].rating, x) {
+					want = append(want, u)
+					break
+				}
+			}
+		}
+		sort.Strings(want)
+		if got := idsOf(data["User"]); canon(got) != canon(nonNil(want)) {
+			r.res.violate("C09", "relation-filter-differs", "parent-by-two-relations:"+op+"/"+cls, i, "%s = %v, by the model %v", q, got, want)
+			return
+		}
+		r.shape["q:parent-by-two-relations:"+op] = true
+	}
+	// --- parents selected by a child field, with a limit on the listed children
+	{
+		op := ops[rx.IntN(len(ops))]
+		x := float64(rx.IntN(9)) + 0.5
+		limit := 1 + rx.IntN(2)
+		q := fmt.Sprintf(`query { User(filter: {books: {rating: {%s: %v}}}) { _docID books(limit: %d) { _docID } } }`, op, x, limit)
+		data, ok := r.q(i, q)
+		if !ok {
+			return
+		}
+		// the parent's filter sees the children that are listed (as with a filter on the listed children): the
+		// first `limit` ones in the order of their ids
+		var want []string
+		for u, bs := range booksOf {
+			for k, b := range bs {
+				if k < limit && cmpOp(op, r.books[b].rating, x) {
+					want = append(want, u)
+					break
+				}
+			}
+		}
+		sort.Strings(want)
+		if got := idsOf(data["User"]); canon(got) != canon(nonNil(want)) {
+			r.res.violate("C09", "relation-filter-differs", "parent-by-child-field/children:limit/"+cls, i, "%s = %v, by the model %v", q, got, want)
+			return
+		}
+		r.shape["q:parent-by-child-field/children:limit"] = true
+	}
 }
 
 
